@@ -67,18 +67,21 @@ def _mk(container, msg):
 
 
 _PREV = []      # the two messages checksummed last by _check_value (a replay repeats them first)
+_TOTAL = [0]    # bytes handed to crc7() by _check_value so far in this process (a replay feeds as many first)
 
 
 def _check_value(acc, crc7, msg, container="bytes", mode="value"):
     prev = list(_PREV)
     _PREV.append([list(msg), container])
     del _PREV[:-2]
+    before = _TOTAL[0]
+    _TOTAL[0] += len(msg)
     try:
         got = crc7(data=_mk(container, msg)) if len(msg) % 5 == 3 else crc7(_mk(container, msg))      # (the parameter is called data)
     except Exception as ex:  # noqa
         acc.evaluations += 1
         acc.violation("C20/raised", f"crc7() raised {ex!r} for a {len(msg)}-byte {container}",
-                      {"mode": "value", "msg": list(msg), "container": container, "prev": prev}, {})
+                      {"mode": "value", "msg": list(msg), "container": container, "prev": prev, "bytes_before": before}, {})
         return False
     exp = ref_crc7(msg)
     acc.evaluations += 1
@@ -87,7 +90,7 @@ def _check_value(acc, crc7, msg, container="bytes", mode="value"):
         acc.nontrivial.add(stable_hash([mode, list(msg[:64]), len(msg)]))
     if got != exp or not isinstance(got, int) or not 0 <= got < 128:
         acc.violation("C20/value-mismatch", "crc7() differs from the bit-serial CRC-7",
-                      {"mode": "value", "msg": list(msg), "container": container, "prev": prev},
+                      {"mode": "value", "msg": list(msg), "container": container, "prev": prev, "bytes_before": before},
                       {"got": got, "expected": exp})
         return False
     if prev and len(prev[-1][0]) > len(msg):
@@ -173,10 +176,19 @@ def run_case(acc, crc7mod, case):
     crc7 = crc7mod.crc7
     mode = case["mode"]
     if mode == "value":
-        if case.get("prev"):
-            # first behind the messages that were checksummed just before it in its shard, then alone
+        if case.get("prev") or case.get("bytes_before"):
+            # first behind as many bytes as the process had checksummed before (a cumulative counter in the library), and behind
+            # the messages that were checksummed just before it in its shard; then alone
             del _PREV[:]
-            for pm, pc in case["prev"]:
+            n_fill = max(0, case.get("bytes_before", 0) - sum(len(pm) for pm, _pc in case.get("prev") or ()))
+            while n_fill > 0:
+                k_ = min(n_fill, 4093)
+                try:
+                    crc7(bytes(k_))
+                except Exception:  # noqa
+                    pass
+                n_fill -= k_
+            for pm, pc in case.get("prev") or ():
                 try:
                     crc7(_mk(pc, bytes(pm)))
                 except Exception:  # noqa
